@@ -41,7 +41,7 @@ PATHS = ['/dev/ttyS3', '/dev/gnss0', '/dev/ttyACM0', '/dev/a', '/dev/b', '/dev/t
 
 
 def rand_line(rng, requested):
-    k = rng.choice(['version', 'devices', 'devices', 'scalar', 'array', 'string', 'other_obj', 'nmea', 'partial', 'watch', 'tpv', 'classnum', 'blank', 'deep', 'classobj'])
+    k = rng.choice(['version', 'devices', 'devices', 'scalar', 'array', 'string', 'other_obj', 'nmea', 'partial', 'watch', 'tpv', 'classnum', 'blank', 'deep', 'classobj', 'device', 'device', 'otherclass'])
     if k == 'version':
         return {'class': 'VERSION', 'release': rng.choice(['3.17', '3.25', 3, None]), 'rev': 'x', 'proto_major': 3}, k
     if k == 'devices':
@@ -50,6 +50,13 @@ def rand_line(rng, requested):
         if requested and rng.random() < 0.5 and devs:
             devs[rng.randrange(len(devs))]['path'] = requested
         return {'class': 'DEVICES', 'devices': devs}, k
+    if k == 'device':
+        # gpsd's notification about ONE device (activation / deactivation): not a DEVICES list, selects nothing
+        return dict({'class': 'DEVICE', 'path': rng.choice(PATHS + ([requested] if requested else []))}, **rng.choice([{}, {'driver': 'PPS'}, {'activated': 0}, {'driver': 'u-blox', 'native': 1}])), k
+    if k == 'otherclass':
+        # any other report class gpsd knows, with and without the members one might expect
+        cls = rng.choice(['ERROR', 'ERROR', 'POLL', 'TOFF', 'PPS', 'OSC', 'GST', 'ATT', 'RAW', 'SUBFRAME', 'devices', 'Version'])
+        return dict({'class': cls}, **rng.choice([{}, {'message': 'x'}, {'message': None}, {'devices': []}, {'release': '9'}, {'path': '/dev/a'}, {'device': '/dev/b', 'real_sec': 1}])), k
     if k == 'scalar':
         return rng.choice([5, 0, -1.5, True, False, None]), k
     if k == 'array':
